@@ -579,17 +579,31 @@ def main(chk):
     # a long token is taken with its FULL text: two names / str keys of one length that differ in a single character, at every
     # position, are two names (whatever is derived from a token — hash, table key — must depend on all of it)
     tprogs, tmeta = [], []
-    for L in (33, 34, 41, 48, 64, 65, 100):
+    for L in (33, 34, 41, 48, 64, 65, 100, 1024, 1025, 2049, 5000):
         base = "".join("nqz_"[i % 4] for i in range(L))
-        for pos in range(L):
+        for pos in (range(L) if L <= 100 else (0, 1, L // 2, L - 2, L - 1)):
             n1 = base[:pos] + "a" + base[pos + 1:]
             n2 = base[:pos] + "b" + base[pos + 1:]
             tprogs.append('%s := 1\n%s := 2\no := {%s: 3, %s: 4}\nm := %%{"%s": 5, "%s": 6}\n[%s, %s, o.%s, o.%s, m["%s"], m["%s"], o.keys(private?: true).len, m.len]'
                           % (n1, n2, n1, n2, n1, n2, n1, n2, n1, n2, n1, n2))
             tmeta.append((L, pos, n1, n2))
+    # a long name is a name like any other (listed by keys, iterated, a symbol), a long str is a str like any other (repr / eval round trip)
+    for L in (1023, 1024, 1025, 2048, 2049, 5000):
+        nm = "".join("nqz_"[i % 4] for i in range(L))
+        tprogs.append('o := {%s: 1, b: 2}\ns := "%s"\n[o.keys@len, o@{|k, v| v}, o.values, \'%s.sym?, s.sym?, s.repr.len, [s, 1].repr.len, s.repr.eval == s, [s].repr.eval[0] == s, s.len, %s := 5]'
+                      % (nm, nm, nm, nm))
+        tmeta.append((L, -1, "[[1, %d], [2, 1], [2, 1], true, true, %d, %d, true, true, %d, 5]" % (L, L + 2, L + 7, L), nm))
     touts = harness("eval", [{"src": t_} for t_ in tprogs], shards=NCPU)
     for prog, (L, pos, n1, n2), o in zip(tprogs, tmeta, touts):
         chk.count(("token-identity", L, pos), True)
+        if pos == -1:
+            if not (o["kind"] == "value" and o.get("repr") == n1):
+                chk.fail("a name / str of %d characters is not treated like a short one: keys, iteration, values, sym?, repr length, repr/eval round trip, "
+                         "length give %s, expected %s" % (L, (o.get("repr") or str((o.get("errk"), o.get("errmsg"))))[:200], n1),
+                         {"harness": "eval", "program": prog[:300] + "…", "length": L, "got": {k: (o.get(k) or "")[:300] if isinstance(o.get(k), str) else o.get(k) for k in ("kind", "repr", "errk", "errmsg")},
+                          "want": n1}, klass="C16:long-token-value")
+                break
+            continue
         if not (o["kind"] == "value" and o.get("repr") == "[1, 2, 3, 4, 5, 6, 2, 2]"):
             chk.fail("two tokens of %d characters that differ only in character %d are not kept apart: variables, properties and str keys "
                      "named `%s…` / `%s…` give %s, expected [1, 2, 3, 4, 5, 6, 2, 2]" % (L, pos, n1[:max(8, pos + 2)], n2[:max(8, pos + 2)],
